@@ -622,6 +622,10 @@ def rebuild_atom(a, f):
     re-applying the smart constructors."""
     k = a.kind
     if k == "app":
+        if a.args[0] == "floordiv" and len(a.args) == 3:
+            return mk_floordiv(f(a.args[1]), f(a.args[2]))
+        if a.args[0] == "mod" and len(a.args) == 3:
+            return mk_mod(f(a.args[1]), f(a.args[2]))
         return Poly.atom(Atom("app", (a.args[0],) + tuple(f(x) for x in a.args[1:]), a.sort))
     if k == "exp":
         return mk_exp(f(a.args[0]))
@@ -818,6 +822,15 @@ def mk_sum(v, bound, body):
     assert name is not None
     if name not in body.syms:
         return bound * body
+    # range shift: Σ_{i<B-1} g(i+1) = Σ_{h<B} g(h) - g(0)   (B >= 1; applied when it simplifies the indices)
+    cst = dict(bound.terms).get((), Fraction(0))
+    if cst == -1 and not bound.is_const():
+        hv = fresh("k")
+        shifted = subst(body, {name: hv - 1})
+        if shifted.size < body.size:
+            if name in VARBOUND:
+                VARBOUND[symname(hv)] = bound + 1
+            return mk_sum(hv, bound + 1, shifted) - subst(shifted, {symname(hv): ZERO})
     nb = bound.as_int()
     if nb is not None and nb <= CONCRETE_UNROLL:
         out = ZERO
@@ -1400,7 +1413,7 @@ def generic_index(dim, prefix="q"):
 
 def Sum(bound, f, prefix="k"):
     """Σ_{k<bound} f(k) with f a Python function of the index Poly"""
-    v = fresh(prefix)
+    v = bounded_var(bound, prefix)
     return mk_sum(v, P(bound), P(f(v)))
 
 
@@ -1409,7 +1422,7 @@ def LSE(bound, f, prefix="k"):
 
 
 def Red(kind, bound, f, prefix="k"):
-    v = fresh(prefix)
+    v = bounded_var(bound, prefix)
     return mk_red(kind, v, P(bound), P(f(v)))
 
 
